@@ -135,7 +135,7 @@ def key_spec():
 def expand(seedhex, n):
     """deterministic expansion of a short hex seed to n octets (keeps cases small & shrinkable)"""
     import hashlib
-    seed = bytes.fromhex(seedhex)
+    seed = seedhex.encode()
     out = b""
     i = 0
     while len(out) < n:
